@@ -1,6 +1,7 @@
 package zsim
 
 import (
+	"fmt"
 	"math/rand"
 	"sort"
 	"strconv"
@@ -123,6 +124,23 @@ func (c constSource) Seed(int64)     {}
 
 // Itoa is a small convenience for site strings in harnesses.
 func Itoa(i int) string { return strconv.Itoa(i) }
+
+// KeysByValue returns the keys of m ordered by the printed form of their values during a simulated run (for maps
+// whose keys cannot be ordered but whose values are plain data), in map order otherwise.
+func KeysByValue[V any](m map[any]V) []any {
+	keys := make([]any, 0, len(m))
+	for k := range m {
+		keys = append(keys, k)
+	}
+	if cur.Load() != nil {
+		pr := make(map[any]string, len(m))
+		for k, v := range m {
+			pr[k] = fmt.Sprintf("%v", v)
+		}
+		sort.SliceStable(keys, func(i, j int) bool { return pr[keys[i]] < pr[keys[j]] })
+	}
+	return keys
+}
 
 type orderedKey interface {
 	~int | ~int8 | ~int16 | ~int32 | ~int64 | ~uint | ~uint8 | ~uint16 | ~uint32 | ~uint64 | ~uintptr | ~string
